@@ -1,5 +1,5 @@
 """registry.py — property id -> check function(prop, tier, seed, replay) -> exit code"""
-import props_map, props_ext, props_conv, props_dbg, props_sub, props_c14, props_acc, props_pool, props_arr, props_thr, props_lay, props_cst
+import props_map, props_ext, props_conv, props_dbg, props_sub, props_c14, props_acc, props_pool, props_arr, props_thr, props_lay, props_cst, props_ded
 
 CHECKS = {}
 for p in ("C01", "C02", "C05", "C07", "C13"):
@@ -16,3 +16,4 @@ CHECKS["C12"] = lambda prop, tier, seed, replay: props_arr.run_property(prop, ti
 CHECKS["C19"] = lambda prop, tier, seed, replay: props_thr.run_property(prop, tier, seed, replay=replay)
 CHECKS["C18"] = lambda prop, tier, seed, replay: props_lay.run_property(prop, tier, seed, replay=replay)
 CHECKS["C16"] = lambda prop, tier, seed, replay: props_cst.run_property(prop, tier, seed, replay=replay)
+CHECKS["C17"] = lambda prop, tier, seed, replay: props_ded.run_property(prop, tier, seed, replay=replay)
